@@ -41,6 +41,9 @@ Pool == << << << <<0, 0>>, <<32, 0>>, <<32, 32>>, <<0, 32>> >> >>,
               << <<16, 16>>, <<24, 16>>, <<24, 40>>, <<16, 40>> >> >>,
            << << <<24, 0>>, <<56, 0>>, <<56, 32>>, <<24, 32>> >> >> >>
 
+\* join type of the offset group built from pool entry p (3 = Round: the join type with state between executions)
+JtOf == <<3, 2, 3, 0, 1, 3>>
+
 LInit == /\ kind \in Kinds /\ hist = <<>>
          /\ engines = IF kind = "Off" THEN <<>> ELSE (1 :> NewEngineRec(kind, 2))
          /\ offsets = IF kind = "Off" THEN (1 :> [miter4 |-> 8, arc4 |-> 1, pc |-> FALSE, rev |-> FALSE, groups |-> <<>>, nexec |-> 0]) ELSE <<>>
@@ -48,7 +51,7 @@ LInit == /\ kind \in Kinds /\ hist = <<>>
 
 DoAdd(o) ==
   /\ IF kind = "Off"
-     THEN OffAdd(1, Pool[o.p], (o.p % 4), IF o.open THEN 2 ELSE 0)
+     THEN OffAdd(1, Pool[o.p], JtOf[o.p], IF o.open THEN 2 ELSE 0)
      ELSE EngAdd(1, IF kind = "D" THEN Pool[o.p] ELSE Pool[o.p], o.ptype, o.open)
 DoExec(o) == IF kind = "Off" THEN OffExecEffect(1) ELSE EngExecEffect(1, o.form)
 
